@@ -34,6 +34,7 @@ var busAssume = []string{
 	"workloads run real qiloop code in-process over harness-owned streams, listeners and service implementations; interleavings are those the Go scheduler produces under the harness's barriers, yields and gates",
 	"'never returns' is decided by the goroutine-state quiescence detector (harness/stuck), never by a timeout; a wall-clock watchdog only yields 'inconclusive'",
 	"the Go race detector reports only races on executed paths",
+	"schedule diversity: shards run under different GOMAXPROCS and the mutexes of lugu/qiloop yield or sleep at lock boundaries with a per-shard probability (build overlay replacing package sync by harness/vsync in build-time copies of the repository's files); this adds no interleaving the program cannot have and leaves mutual exclusion and happens-before unchanged",
 }
 
 var _ = time.Second
